@@ -79,7 +79,8 @@ impl Campaign for StressCampaign {
         let greedy_only = self.greedy_only;
         (
             prop::sample::select(sinks),
-            prop_oneof![Just(24usize), Just(32), Just(64), Just(128), Just(512), 24usize..200],
+            // small capacities make some of the 9..14-byte lines exact fits, capacity-1 fits or oversized
+            prop_oneof![2 => Just(24usize), 2 => Just(32usize), 2 => Just(64usize), 1 => Just(128usize), 1 => Just(512usize), 3 => 24usize..200, 3 => 10usize..24],
             2u8..=16,
             100u16..1500,
             prop_oneof![Just(0u8), 3u8..40],
@@ -123,7 +124,7 @@ impl Campaign for StressCampaign {
                 };
                 // clones of the queuing handle exist elsewhere in a real program (they must not
                 // add consumers: one thread's metrics stay in program order)
-                queue_clones = (0..(case.yields >> 8) % 3).map(|_| q.clone()).collect();
+                queue_clones = (0..1 + (case.yields >> 8) % 3).map(|_| q.clone()).collect();
                 StatsdClient::from_sink("", q)
             }
             StressSink::Spy => {
@@ -269,21 +270,33 @@ impl Campaign for StressCampaign {
                 } else {
                     // the last handles of the queuing sink (the client's and the clones) go away on
                     // different threads at the same moment
+                    // spin gate (tighter than a Barrier): every thread announces itself, then all spin on one flag
                     let n = queue_clones.len() + 1;
-                    let barrier = Arc::new(std::sync::Barrier::new(n));
+                    let ready = Arc::new(std::sync::atomic::AtomicUsize::new(0));
+                    let go = Arc::new(AtomicBool::new(false));
                     let mut hs = Vec::new();
-                    let b0 = barrier.clone();
+                    let (r0, g0) = (ready.clone(), go.clone());
                     hs.push(std::thread::spawn(move || {
-                        b0.wait();
+                        r0.fetch_add(1, Ordering::SeqCst);
+                        while !g0.load(Ordering::Acquire) {
+                            std::hint::spin_loop();
+                        }
                         drop(c)
                     }));
                     for q in queue_clones.drain(..) {
-                        let b = barrier.clone();
+                        let (r, g) = (ready.clone(), go.clone());
                         hs.push(std::thread::spawn(move || {
-                            b.wait();
+                            r.fetch_add(1, Ordering::SeqCst);
+                            while !g.load(Ordering::Acquire) {
+                                std::hint::spin_loop();
+                            }
                             drop(q)
                         }));
                     }
+                    while ready.load(Ordering::SeqCst) < n {
+                        std::thread::yield_now();
+                    }
+                    go.store(true, Ordering::Release);
                     for h in hs {
                         if h.join().is_err() {
                             panics.push("dropping a handle of the queuing sink panicked".into());
@@ -339,9 +352,6 @@ impl Campaign for StressCampaign {
         let mut last_seq: Vec<i64> = vec![-1; case.threads as usize];
         let mut mixed = 0usize;
         for (di, d) in stream.iter().enumerate() {
-            if d.len() > case.cap {
-                bad.push(format!("datagram #{} has {} bytes > capacity {}", di, d.len(), case.cap));
-            }
             let text = match std::str::from_utf8(d) {
                 Ok(t) => t,
                 Err(_) => {
@@ -349,8 +359,20 @@ impl Campaign for StressCampaign {
                     continue;
                 }
             };
-            if !text.ends_with('\n') {
-                bad.push(format!("datagram #{} does not end with the terminator: '{}'", di, text.escape_default()));
+            // the one legitimate exception (C05): a metric that cannot fit into an empty buffer together
+            // with its terminator goes out alone, unmodified and without terminator
+            let lone_oversized = !text.contains('\n') && text.len() + 1 > case.cap;
+            if d.len() > case.cap && !lone_oversized {
+                bad.push(format!("datagram #{} has {} bytes > capacity {}", di, d.len(), case.cap));
+            }
+            if !text.ends_with('\n') && !lone_oversized {
+                bad.push(format!(
+                    "datagram #{} does not end with the terminator although its {} bytes (+1) fit into capacity {}: '{}'",
+                    di,
+                    text.len(),
+                    case.cap,
+                    text.escape_default()
+                ));
             }
             let mut threads_here = std::collections::HashSet::new();
             for line in text.split_terminator('\n') {
@@ -363,7 +385,9 @@ impl Campaign for StressCampaign {
                 match parsed {
                     Some((t, s)) if t < last_seq.len() => {
                         threads_here.insert(t);
-                        if case.sink != StressSink::Udp && !self.framing_only {
+                        // (C12: "each thread's *buffered* metrics leave in program order" - a metric too large
+                        // for the buffer is written during its own emit and may overtake buffered ones)
+                        if case.sink != StressSink::Udp && !self.framing_only && line.len() + 1 <= case.cap {
                             if s <= last_seq[t] {
                                 bad.push(format!("thread {}'s metric #{} left after its metric #{} (program order violated)", t, s, last_seq[t]));
                             }
